@@ -322,8 +322,8 @@ def dyn_expect(st, root):
             e = dyn_bind(m, root, t)
             ts = ".".join(t)
             rel = (m != "absolute") if b[0] == "Def" else b[3]
-            if rel and rs == ts[:len(rs)] and not is_prefix(root, t):
-                trig.add("D15_string_prefix")
+            # D15 (raw string prefix test, e.g. root "S" / target "S2.foo") is fixed in /repo (320be27):
+            # such cases are generated and must follow the component-wise rule
             if b[0] == "Der" and m == "auto" and not b[3] and is_prefix(root, t):
                 trig.add("dyn_derived_nonrelative")
             if b[0] == "Der" and m == "auto" and b[3] and not is_prefix(root, t):
